@@ -77,9 +77,9 @@ func main() {
 		for _, format := range lib.Formats {
 			for _, sk := range []string{"local", "plugin-raw", "plugin-envelope"} {
 				for _, blob := range []bool{false, true} {
-					reps := r.N(6, 40)
+					reps := r.N(6, 120)
 					if strings.HasPrefix(spec, "RSA-4") || strings.HasPrefix(spec, "RSA-3") {
-						reps = r.N(3, 12)
+						reps = r.N(3, 30)
 					}
 					for rep := 0; rep < reps; rep++ {
 						k++
